@@ -470,6 +470,14 @@ enum Item {
 	/// the unsubscribe request of a subscription that was let go is answered with an odd result / an
 	/// error object: nobody waits for it, nothing happens, the connection stays up
 	OddUnsubAnswer,
+	/// for a subscription the client has let go of (dropped / unsubscribed / lag-closed: its unsubscribe
+	/// request is written, not yet acknowledged): the server's close notification for that id, an
+	/// ordinary notification for it, a new subscribe answered with the very same id, and finally the
+	/// acknowledgement of the unsubscribe request
+	CloseForLetGo,
+	NotifForLetGo,
+	SameIdSubscribe,
+	AckUnsub,
 	/// a `Pong` frame (ignored), the transport's `close()` will fail (ignored)
 	Pong,
 	CloseErr,
@@ -838,6 +846,8 @@ fn render_with(rng: &mut Rng, out: &mut Out, caseno: u64, str_ids: bool, cap: u6
 	let mut streams: Vec<(usize, String)> = vec![];
 	// request ids of the unsubscribe calls the client is believed to have sent (subscribe id + 1)
 	let mut unsubs: Vec<u64> = vec![];
+	// subscription ids the client has let go of (unsubscribe written)
+	let mut let_go: Vec<String> = vec![];
 	let mut ticket = 0usize;
 	let mut fault_no = 0u64;
 	for it in script {
@@ -879,6 +889,37 @@ fn render_with(rng: &mut Rng, out: &mut Out, caseno: u64, str_ids: bool, cap: u6
 				out.count("api.on_disconnect_awaited");
 				lines.push("ct ondisc".into());
 				ticket += 1;
+			}
+			Item::CloseForLetGo | Item::NotifForLetGo => {
+				let sid = if let Some(x) = let_go.last() {
+					x.clone()
+				} else if let Some((_, x)) = streams.last() {
+					x.clone()
+				} else {
+					"nobody".to_string()
+				};
+				let close = matches!(it, Item::CloseForLetGo);
+				out.count(if close { "server.close_notification_for_let_go_subscription" } else { "server.notification_for_let_go_subscription" });
+				let body = if close { *rng.pick(&["\"error\":\"closed\"", "\"error\":{\"code\":1,\"message\":\"gone\"}", "\"error\":null"]) } else { "\"result\":99" };
+				lines.push(format!("ct deliver {}", hexs(&format!("{{\"jsonrpc\":\"2.0\",\"method\":\"sub\",\"params\":{{\"subscription\":\"{sid}\",{body}}}}}"))));
+			}
+			Item::SameIdSubscribe => {
+				// a new subscribe, accepted by the server under the id of the subscription that is being closed
+				let sid = let_go.last().cloned().or_else(|| streams.last().map(|x| x.1.clone())).unwrap_or_else(|| "S0".into());
+				out.count("server.subscribe_answered_with_id_in_closing");
+				lines.push("ct subscribe".into());
+				lines.push(format!("ct deliver {}", hexs(&format!("{{\"jsonrpc\":\"2.0\",\"id\":{},\"result\":\"{sid}\"}}", idj(next_id, str_ids)))));
+				next_id += 2;
+				ticket += 1;
+			}
+			Item::AckUnsub => {
+				if unsubs.is_empty() {
+					lines.push(format!("ct deliver {}", hexs(&noise_text(rng, &subs))));
+				} else {
+					out.count("server.unsubscribe_acknowledged");
+					let uid = unsubs.remove(0);
+					lines.push(format!("ct deliver {}", hexs(&format!("{{\"jsonrpc\":\"2.0\",\"id\":{},\"result\":true}}", idj(uid, str_ids)))));
+				}
 			}
 			Item::Pong => {
 				out.count("server.pong");
@@ -1006,6 +1047,7 @@ fn render_with(rng: &mut Rng, out: &mut Out, caseno: u64, str_ids: bool, cap: u6
 					if let Ok(n) = sid[1..].parse::<u64>() {
 						unsubs.push(n + 1);
 					}
+					let_go.push(sid.clone());
 					let verb = if matches!(it, Item::DropSub) { "drop" } else { "unsub" };
 					out.count(&format!("consumer.{verb}"));
 					lines.push(format!("ct {verb} {t}"));
@@ -1017,6 +1059,13 @@ fn render_with(rng: &mut Rng, out: &mut Out, caseno: u64, str_ids: bool, cap: u6
 				} else {
 					out.count("consumer.lag_flood");
 					let (_, sid) = rng.pick(&streams).clone();
+					if !let_go.contains(&sid) {
+						// the lag makes the client write the unsubscribe request itself
+						let_go.push(sid.clone());
+						if let Ok(n) = sid[1..].parse::<u64>() {
+							unsubs.push(n + 1);
+						}
+					}
 					for n in 0..=cap {
 						lines.push(format!(
 							"ct deliver {}",
@@ -1066,7 +1115,7 @@ fn render_with(rng: &mut Rng, out: &mut Out, caseno: u64, str_ids: bool, cap: u6
 
 /// does the send task write something to the transport for this item (if the script's belief holds)?
 fn writes(it: &Item) -> bool {
-	matches!(it, Item::Front(Front::Call | Front::Subscribe | Front::Batch(_) | Front::Notify) | Item::DropSub | Item::UnsubSub | Item::Flood | Item::OddSubAnswer(_))
+	matches!(it, Item::Front(Front::Call | Front::Subscribe | Front::Batch(_) | Front::Notify) | Item::DropSub | Item::UnsubSub | Item::Flood | Item::OddSubAnswer(_) | Item::SameIdSubscribe)
 }
 
 fn gen_base(rng: &mut Rng) -> Vec<Item> {
@@ -1243,7 +1292,13 @@ fn random_history(rng: &mut Rng, out: &mut Out) -> Vec<Item> {
 				1 => Item::Front(Front::Watch),
 				2 => Item::Pong,
 				3 => Item::CloseErr,
-				4 => Item::NotifForReg,
+				4 => match rng.below(5) {
+					0 => Item::CloseForLetGo,
+					1 => Item::NotifForLetGo,
+					2 => Item::SameIdSubscribe,
+					3 => Item::AckUnsub,
+					_ => Item::NotifForReg,
+				},
 				5 => {
 					out.count("fault.garbage");
 					Item::GarbageBytes(None)
@@ -1558,6 +1613,50 @@ fn queued_behind_blocked_send() -> Vec<Vec<Item>> {
 				s.push(Item::End);
 				s.push(Item::Front(Front::Reg));
 				s.push(Item::Probe);
+				all.push(s);
+			}
+		}
+	}
+	all
+}
+
+/// the unsubscribe of a let-go subscription races with what the server still sends for that id:
+/// accepted subscription → drop / unsubscribe() / lag-close (unsubscribe request written) → before its
+/// acknowledgement, in every order: the server's close notification for that id, an ordinary
+/// notification for it, a second subscribe answered with the same id → the acknowledgement → a call
+/// that must be answered
+fn close_race_histories() -> Vec<Vec<Item>> {
+	let evs = [Item::CloseForLetGo, Item::NotifForLetGo, Item::SameIdSubscribe];
+	let orders: [&[usize]; 16] = [
+		&[], &[0], &[1], &[2], &[0, 1], &[1, 0], &[0, 2], &[2, 0], &[1, 2], &[2, 1],
+		&[0, 1, 2], &[0, 2, 1], &[1, 0, 2], &[1, 2, 0], &[2, 0, 1], &[2, 1, 0],
+	];
+	let mut all = vec![];
+	for trigger in 0..3 {
+		for order in orders {
+			for held in [false, true] {
+				let mut s = vec![Item::Front(Front::Subscribe), Item::Answer(true), Item::Front(Front::Call)];
+				s.push(match trigger {
+					0 => Item::DropSub,
+					1 => Item::UnsubSub,
+					_ => Item::Flood,
+				});
+				if held {
+					// everything arrives in one go
+					s.push(Item::Gate("recv", false));
+				}
+				for i in order {
+					s.push(evs[*i].clone());
+				}
+				s.push(Item::AckUnsub);
+				if held {
+					s.push(Item::Gate("recv", true));
+				}
+				s.push(Item::CloseForLetGo);
+				s.push(Item::Answer(true));
+				s.push(Item::Front(Front::Call));
+				s.push(Item::Answer(true));
+				s.push(Item::End);
 				all.push(s);
 			}
 		}
@@ -1949,6 +2048,12 @@ fn main() {
 		for script in long_message_histories(thorough) {
 			caseno += 1;
 			out.count("long_message_history");
+			let (str_ids, cap, opts) = pick_config(&mut rng, &mut out);
+			lines.extend(render_with(&mut rng, &mut out, caseno, str_ids, cap, &opts, &script));
+		}
+		for script in close_race_histories() {
+			caseno += 1;
+			out.count("unsubscribe_close_race_history");
 			let (str_ids, cap, opts) = pick_config(&mut rng, &mut out);
 			lines.extend(render_with(&mut rng, &mut out, caseno, str_ids, cap, &opts, &script));
 		}
